@@ -98,3 +98,58 @@ fn equal_deadlines_and_reschedule() {
     assert_eq!(log.len(), 2);
     assert!(start.elapsed() >= Duration::from_millis(60));
 }
+
+#[test]
+fn rearming_earlier_leaves_no_stale_arming() {
+    // A in front, B behind it; B is re-armed to fire before A. B's OLD arming (at +400 ms) must be gone:
+    // nothing may fire or cut a wait short at +400 ms.
+    let mut el: EventLoop<Log> = EventLoop::try_new().unwrap();
+    let now = Instant::now();
+    let (_a, _ta) = timer(&el, 1, now + Duration::from_millis(150));
+    let (b, tb) = timer(&el, 2, now + Duration::from_millis(400));
+    b.as_source_mut().set_deadline(now + Duration::from_millis(60));
+    el.handle().update(&tb).unwrap();
+    let mut log = Log::new();
+    run_for(&mut el, &mut log, Duration::from_millis(250));
+    assert_eq!(log.iter().map(|l| l.0).collect::<Vec<_>>(), vec![2, 1]);
+    let t = Instant::now();
+    el.dispatch(Duration::from_millis(400), &mut log).unwrap(); // spans the old deadline
+    assert!(t.elapsed() >= Duration::from_millis(390), "the cancelled arming woke the loop after {:?}", t.elapsed());
+    assert_eq!(log.len(), 2);
+}
+
+#[test]
+fn rearming_earlier_then_rescheduling_never_fires_early() {
+    // as above, but B reschedules itself far into the future when it fires: a surviving old arming
+    // would fire it again, long before that deadline
+    let mut el: EventLoop<Log> = EventLoop::try_new().unwrap();
+    let now = Instant::now();
+    let (_a, _ta) = timer(&el, 1, now + Duration::from_millis(150));
+    let d = Dispatcher::new(Timer::from_deadline(now + Duration::from_millis(300)), move |dl, _, log: &mut Log| {
+        log.push((2, dl, Instant::now()));
+        TimeoutAction::ToInstant(Instant::now() + Duration::from_secs(600))
+    });
+    let tb = el.handle().register_dispatcher(d.clone()).unwrap();
+    d.as_source_mut().set_deadline(now + Duration::from_millis(60));
+    el.handle().update(&tb).unwrap();
+    let mut log = Log::new();
+    run_for(&mut el, &mut log, Duration::from_millis(450));
+    check_never_early(&log);
+    assert_eq!(log.iter().map(|l| l.0).collect::<Vec<_>>(), vec![2, 1], "B fires once (its re-armed deadline), A once");
+}
+
+#[test]
+fn removing_an_expired_but_undispatched_timer_leaves_nothing() {
+    // the timer is due but no dispatch has happened yet; removing/disabling it must cancel the arming
+    for disable in [false, true] {
+        let mut el: EventLoop<Log> = EventLoop::try_new().unwrap();
+        let (_a, ta) = timer(&el, 1, Instant::now());
+        std::thread::sleep(Duration::from_millis(5));
+        if disable { el.handle().disable(&ta).unwrap(); } else { el.handle().remove(ta); }
+        let mut log = Log::new();
+        let t = Instant::now();
+        el.dispatch(Duration::from_millis(150), &mut log).unwrap();
+        assert!(log.is_empty(), "a cancelled arming fired");
+        assert!(t.elapsed() >= Duration::from_millis(140), "dispatch returned after {:?}: a cancelled arming is still in the wheel", t.elapsed());
+    }
+}
